@@ -59,6 +59,21 @@ func gen(g *mon.Gen) {
 	for fc := 0; fc < 256; fc++ {
 		g.Emit(&Case{Kind: "agree", FC: fc, Lo: 0, Hi: 300, Seed: rng.Int63(), N: g.Pick(2, 8)})
 	}
+	// (transaction id x unit id) cube on the headers of encodable request shapes: one case per unit id
+	us := []int{0, 1, 5, 9, 14, 50, 56, 255}
+	if g.Thorough() {
+		us = us[:0]
+		for u := 0; u < 256; u++ {
+			us = append(us, u)
+		}
+	} else {
+		for k := 0; k < 16; k++ {
+			us = append(us, rng.Intn(256))
+		}
+	}
+	for _, u := range us {
+		g.Emit(&Case{Kind: "tidcube", FC: u, Seed: rng.Int63()})
+	}
 }
 
 func validException(b []byte) bool {
@@ -189,6 +204,32 @@ func run(ci any, r *mon.Rec) {
 				}
 			}
 		}
+	case "tidcube":
+		// every transaction id for unit c.FC: the 8-byte header (and the whole frame) of each encodable shape must be classified
+		// (len, nil); shapes: FC1-6 (length 6), FC17 (length 2), FC16 with 1..4 registers, FC15 with 8 coils, FC23 with 1 write register
+		unit := uint8(c.FC)
+		type shape struct {
+			fc  uint8
+			len int
+		}
+		shapes := []shape{{1, 6}, {2, 6}, {3, 6}, {4, 6}, {5, 6}, {6, 6}, {17, 2}, {16, 9}, {16, 15}, {15, 8}, {23, 13}}
+		bad := 0
+		nn := 0
+		for t := 0; t < 65536; t++ {
+			for _, sh := range shapes {
+				h := []byte{byte(t >> 8), byte(t), 0, 0, byte(sh.len >> 8), byte(sh.len), unit, sh.fc}
+				n, cerr := packet.LooksLikeModbusTCP(h, false)
+				nn++
+				if cerr != nil || n != 6+sh.len {
+					bad++
+					if bad <= 4 {
+						r.Violate(c, "classifier-rejects-encodable", mon.Attrs{"fc": int(sh.fc), "prefix_ge8": true, "cube": "tid x unit"}, fmt.Sprintf("header % x of an encodable fc%d request: (%d, %v), want (%d, nil)", h, sh.fc, n, cerr, 6+sh.len))
+					}
+				}
+			}
+		}
+		r.Eval(nn)
+		r.Distinct(mon.Mix(0x71D, uint64(c.FC)))
 	case "agree":
 		for l := c.Lo; l <= c.Hi+4; l++ {
 			ll := l
@@ -207,10 +248,23 @@ func run(ci any, r *mon.Rec) {
 					continue
 				}
 				for rep := 0; rep < c.N; rep++ {
-					for style := 0; style < 4; style++ {
+					for style := 0; style < 5; style++ {
 						fr := make([]byte, n)
 						copy(fr, h)
-						fill(rng, fr[8:], style)
+						if style == 4 {
+							// a valid request of this function cut down to n bytes, header kept consistent: internally
+							// plausible fields (quantities, byte counts that agree with each other) in a frame that is too short
+							if !specref.Supported(uint8(c.FC)) {
+								continue
+							}
+							base := libx.LegalReq(rng, uint8(c.FC), []float64{0.5, 1}[rng.Intn(2)]).Encode(specref.TCP)
+							if len(base) <= n {
+								continue
+							}
+							copy(fr[8:], base[8:n])
+						} else {
+							fill(rng, fr[8:], style)
+						}
 						r.Eval(1)
 						var v packet.Request
 						var perr error
